@@ -79,10 +79,10 @@ func writeEvidence(verif, prop, tier string, seed int, eng *Engine, units []*FnV
 		o := obls[0]
 		samples = append(samples, map[string]interface{}{"obligation": o.Name, "source": o.Text, "verdict": o.Verdict})
 	}
-	nonCover := len(obls) - nCover
+	nonCover := 0
 	for _, o := range obls {
-		if o.Verdict == "cover-failed" {
-			nonCover--
+		if !o.Cover {
+			nonCover++
 		}
 	}
 	ev := map[string]interface{}{
